@@ -1,5 +1,6 @@
 """C15 - fit() performs exactly the documented training protocol."""
 import copy
+import os
 
 import torch
 from hypothesis import strategies as st
@@ -81,6 +82,9 @@ def fit_case(draw):
         "pre_mode": draw(st.sampled_from(["train", "eval", "model_eval_only", "model_train_only"])),
         "model_seed": draw(seed_s), "fit_seed": draw(seed_s),
         "second_epochs": draw(st.sampled_from([0, 0, 1, 2])),
+        # the progress bar is display only: switching it on, or configuring it, changes nothing of the protocol
+        "verbose": draw(st.booleans()),
+        "tqdm": draw(st.sampled_from([None, None, {"desc": "fit"}, {"initial": 1}, {"initial": 3, "leave": False}, {"ncols": 60, "position": 0}])),
     }
 
 
@@ -189,8 +193,13 @@ def check_fit(case, ctx):
             lazy = False
         counting = make_counting(base)(trained(hedger), **kw)
         opt_arg = counting
-    fit_kw = dict(hedge=hedge, n_epochs=k, n_paths=n_paths, n_times=n_times, init_state=init_state, verbose=False,
+    tq = dict(case.get("tqdm") or {})
+    if case.get("verbose"):
+        tq["file"] = open(os.devnull, "w")  # keep the bar off the terminal
+    fit_kw = dict(hedge=hedge, n_epochs=k, n_paths=n_paths, n_times=n_times, init_state=init_state, verbose=bool(case.get("verbose")),
                   validation=validation)
+    if tq:
+        fit_kw["tqdm_kwargs"] = tq
     if opt_arg is not None:
         fit_kw["optimizer"] = opt_arg
     if case["opt_kind"] == "default" and lazy:
@@ -255,7 +264,10 @@ def check_fit(case, ctx):
     start = captured.get("log_at_construction", 0)
     calls = log[start:]
     per_eval = 1 if "prev_hedge" not in [str(f) for f in hedger.inputs.features] else None
-    Tn = ul.spot.shape[1] if k > 0 or lazy else None
+    simulated = "spot" in dict(ul.named_buffers())
+    if k > 0 and not ctx.check(simulated, "C15/step-count", f"fit(n_epochs={k}) never simulated a batch"):
+        return
+    Tn = ul.spot.shape[1] if (k > 0 or lazy) and simulated else None
     if per_eval is None and Tn is not None:
         per_eval = Tn - 1
     if k > 0:
